@@ -18,12 +18,18 @@ Nums == << <<48, 46, 48, 52>>, <<48, 46, 48, 52, 49>>, <<48, 46, 53>>, <<48, 46,
            <<48, 46, 55, 48, 48, 48, 48, 48, 48, 53>>, [i \in 1..40 |-> IF i = 1 THEN 49 ELSE 48] >>
 NumRank == <<1, 2, 3, 4, 5, 7, 8, 9, 5, 5, 5, 5, 9, 9, 6, 10>>
 Letters == <<65, 69, 90, 101>>                                                     \* A E Z e(=E)
-Patches == <<-1, 0, 1, 12>>
+\* revisions; the last three are LABELS (TLC's integers have 32 bits) for 2^63 - 1, 2^63 and 2^64 - 1: order-preserving stand-ins
+\* whose text is the real number (a comparison by subtraction, or through a signed integer, goes wrong from 2^63 on)
+Patches == <<-1, 0, 1, 12, 2000000001, 2000000002, 2000000003>>
+BigText == <<"9223372036854775807", "9223372036854775808", "18446744073709551615">>
+AsciiOf(str) == [i \in 1..Len(str) |-> 48 + (CHOOSE d \in 0..9 : SubSeq("0123456789", d + 1, d + 1) = SubSeq(str, i, i))]
 RECURSIVE Digits(_)
 Digits(n) == IF n < 10 THEN <<48 + n>> ELSE Digits(n \div 10) \o <<48 + (n % 10)>>
-VerText(ni, li, pi) == Nums[ni] \o <<Letters[li]>> \o (IF Patches[pi] < 0 THEN <<>> ELSE Digits(Patches[pi]))
+PatchText(q) == IF q < 0 THEN <<>> ELSE IF q > 2000000000 THEN AsciiOf(BigText[q - 2000000000]) ELSE Digits(q)
+VerText(ni, li, pi) == Nums[ni] \o <<Letters[li]>> \o PatchText(Patches[pi])
 VerKey(ni, li, pi) == [num |-> NumRank[ni], minor |-> Upper(Letters[li]), patch |-> Patches[pi]]
-Versions == {<<ni, li, pi>> : ni \in 1..Len(Nums), li \in 1..Len(Letters), pi \in 1..Len(Patches)}
+Versions == {<<ni, li, pi>> : ni \in 1..Len(Nums), li \in 1..Len(Letters), pi \in 1..4}
+            \cup {<<ni, li, pi>> : ni \in {5, 8}, li \in {1, 2}, pi \in 5..7}
 
 \* order axioms on the model, all triples
 KeyOf(v) == VerKey(v[1], v[2], v[3])
